@@ -641,19 +641,31 @@ def mesh_valid(inv):
     return not any(inv[c] for c in MESH_CLAUSES) and inv.get('_connected', True)
 
 
+SOFT_CLAUSES = ['namelists', 'num_layers']        # what the bare add_/delete_ operations are known to leave stale
+# operations that recompute every column's layer count
+LAYER_RESET = {'refine_layers', 'copy_layers_from', 'roundtrip'}
+
+
+def hard_damage(inv):
+    return any(inv[c] for c in INVARIANT_CLAUSES if c not in SOFT_CLAUSES)
+
+
 def judge(name, exc, prev, cur, suffix=''):
     """violations introduced by one operation.  Soundness rules:
-      * an operation is blamed only when the state *before* it satisfied the invariant (what happens
-        from an inconsistent state is outside the property: the first break is the counterexample);
-      * refine / decompose / split are blamed only when the mesh before them was valid;
-      * mesh validity (missing / extra connections, orphans) is demanded only of operations that
-        promise a valid mesh: nothing new after refine / decompose_columns / split_column, nothing at
-        all after reduce / check(fix=True); a file round trip must not add any;
-      * the name lists must be fresh after every operation that ends by recomputing them, and must
-        not *become* stale through any other."""
-    if not consistent(prev):
+      * an operation is blamed for what it *breaks* only when the state before it satisfied the invariant (what
+        happens from an inconsistent state is outside the property: the first break is the counterexample);
+      * refine / decompose / split are blamed only when the mesh before them was valid and connected;
+      * what an operation *promises regardless of the state it starts from* is demanded even after earlier (known)
+        damage of the soft kind (stale name lists / layer counts left by bare edits): the name lists are fresh after
+        every operation that ends by recomputing them, the layer counts match after every operation that recomputes
+        them for all columns, and nothing is missing / extra / orphaned after reduce and check(fix=True);
+      * mesh validity is otherwise demanded only as "nothing new" after refine / decompose_columns / split_column;
+        a file round trip must not add any;
+      * nothing is judged from a state whose registries or back-references are already broken."""
+    if hard_damage(prev):
         return []
-    if name in NEEDS_VALID_MESH and not mesh_valid(prev):
+    damaged = not consistent(prev)
+    if name in NEEDS_VALID_MESH and (damaged or not mesh_valid(prev)):
         return []
     out = []
     for clause in CLAUSES:
@@ -663,14 +675,30 @@ def judge(name, exc, prev, cur, suffix=''):
         if clause in MESH_CLAUSES:
             if name in MESH_ABSOLUTE and exc is None:
                 new = items
+            elif damaged:
+                new = {}
             elif name == 'roundtrip':
                 new = items if len(items) > len(prev[clause]) else {}
             elif name in MESH_TRANSITION or exc is not None:
                 new = {k: v for k, v in items.items() if k not in prev[clause]}
             else:
                 new = {}
+        elif clause == 'namelists':
+            if name in REFRESHING and exc is None:
+                new = items
+            elif damaged:
+                new = {}
+            else:
+                new = items
+        elif clause == 'num_layers':
+            if name in LAYER_RESET and exc is None:
+                new = items
+            elif damaged:
+                new = {}
+            else:
+                new = items
         else:
-            new = items          # prev was consistent: everything present now is new
+            new = items if (not damaged or exc is None) else {}     # the state before had no damage of this kind
         kinds = {}
         for item, msg in new.items():
             kinds.setdefault(item[0], []).append(msg)
@@ -724,7 +752,7 @@ def run_sequence(mg, recipe, ops, tmpdir=None, known=(), observer=None):
         for v in vs:
             v['step'] = step
         viol += vs
-        trace.append({'op': name, 'exc': exc, 'consistent': consistent(cur), 'mesh_valid': mesh_valid(cur)})
+        trace.append({'op': name, 'exc': exc, 'consistent': consistent(cur), 'mesh_valid': mesh_valid(cur), 'hard': hard_damage(cur)})
         prev = cur
         if exc is not None or any(v['key'] not in known for v in vs):
             break
@@ -947,19 +975,43 @@ class C11Observer:
             if not close_area(sum(shoelace2(p) for _, p in ch), shoelace2(o[1]), 2 * sum(perim(p) for _, p in ch)):
                 bad('tiling:parent-area', 'the new columns inside old column %r have total area %s, the old column %s'
                     % (o[0], float(sum(shoelace2(p) for _, p in ch)) / 2, float(shoelace2(o[1])) / 2))
-            # points of the old column: exactly one new column contains each
-            pts = [centroid_exact(o[1])] + [centroid_exact(p) for _, p in ch][:self.ppc]
-            if self.rng is not None:
-                bx = obox[k]
-                for _ in range(self.ppc):
-                    pts.append((bx[0] + (bx[1] - bx[0]) * Fraction(self.rng.randint(1, 63), 64),
-                                bx[2] + (bx[3] - bx[2]) * Fraction(self.rng.randint(1, 63), 64)))
+            # points of the old column: exactly one new column contains each.  Sample points are taken well inside
+            # the new columns (convex combinations of a new column's vertices with every weight >= 1/8) and at the
+            # old column's centroid; a point closer than 1e-6 x (longest side) to any side is not used (the mid-side
+            # nodes are rounded doubles: a sliver of width 1e-13 along a refined side changes hands)
+            def clear_of_sides(q, poly, tol2):
+                m = len(poly)
+                for i in range(m):
+                    a, b = poly[i], poly[(i + 1) % m]
+                    d = (b[0] - a[0], b[1] - a[1])
+                    l2 = d[0] * d[0] + d[1] * d[1]
+                    if l2 == 0:
+                        continue
+                    t = max(Fraction(0), min(Fraction(1), ((q[0] - a[0]) * d[0] + (q[1] - a[1]) * d[1]) / l2))
+                    e = (a[0] + t * d[0] - q[0], a[1] + t * d[1] - q[1])
+                    if e[0] * e[0] + e[1] * e[1] <= tol2:
+                        return False
+                return True
+
+            longest2 = max((o[1][i][0] - o[1][(i + 1) % len(o[1])][0]) ** 2 + (o[1][i][1] - o[1][(i + 1) % len(o[1])][1]) ** 2
+                           for i in range(len(o[1])))
+            tol2 = longest2 * Fraction(1, 10 ** 12)
+            pts = [centroid_exact(o[1])]
+            for _, p in ch[:max(4, self.ppc)]:
+                m = len(p)
+                if self.rng is not None:
+                    w = [self.rng.randint(1, 8) for _ in range(m)]
+                else:
+                    w = [1] * m
+                tot = sum(w) + m          # every weight at least 1/(tot) ... and at most (8+1)/tot
+                pts.append((sum((w[i] + 1) * p[i][0] for i in range(m)) / Fraction(tot),
+                            sum((w[i] + 1) * p[i][1] for i in range(m)) / Fraction(tot)))
             for q in pts:
-                if locate(q, o[1]) != 'in':
+                if locate(q, o[1]) != 'in' or not clear_of_sides(q, o[1], tol2):
+                    continue
+                if not all(clear_of_sides(q, p, tol2) for _, p in ch):
                     continue
                 where = [locate(q, p) for _, p in ch]
-                if 'on' in where:
-                    continue
                 if where.count('in') != 1:
                     bad('tiling:point-count', 'the point %r of old column %r lies in %d of the new columns'
                         % ((float(q[0]), float(q[1])), o[0], where.count('in')))
